@@ -353,7 +353,9 @@ pub fn run(cfg: &Cfg) -> Outcome {
         acc.sample(json!({"expr": items[i].text, "full_window": items[i].full}));
     }
     let skipped = acc.get("long_horizon_instants_left_to_full_window_list") + acc.get("long_horizon_instants_skipped_after_budget");
+    let tz_cov = crate::props::tzshape::run(crate::props::tzshape::Which::C03, cfg.quick(), &mut acc);
     let mut o = Outcome::new("model_checking", acc);
+    o.cov("time_zone_contexts", tz_cov);
     o.exhaustive = true;
     if skipped > 0 {
         o.caps_hit.push(format!("{skipped} long-horizon next_change queries were not run (block mode of the quick tier leaves horizons over 800 days to the full-window list; elsewhere the deterministic schedule_at budget was used up): state() was still checked nowhere less"));
@@ -366,6 +368,9 @@ pub fn run(cfg: &Cfg) -> Outcome {
 }
 
 pub fn replay(cfg: &Cfg, case: &Value) -> Vec<Violation> {
+    if crate::props::tzshape::is_case(case) {
+        return crate::props::tzshape::replay(crate::props::tzshape::Which::C03, case);
+    }
     let mut acc = Acc::new();
     let Some(text) = case.get("expr").and_then(|v| v.as_str()) else { return vec![] };
     let c = ctx::by_name(&cfg.repo, case.get("ctx").and_then(|v| v.as_str()).unwrap_or("empty"));
